@@ -809,6 +809,205 @@ pub fn server(x: &X, with_events: bool, with_hosts: bool) -> X {
     }
 }
 
+/// Concurrent clients on a real server: 127.0.0.1 floods over `parallel` connections at a time while every bystander
+/// (127.0.0.2, .3, ...) makes its few connections at the same moment; the accept loop and the connection tasks
+/// call `register` from the runtime's worker threads concurrently.
+/// input : (L checked sconf (L (N flood_conns) (N flood_reqs) (N parallel)) (L (L (N nconn) (N nreq)) ...))
+/// output: (L (L (L result ...) ...per bystander...) alive)   (what the flooder receives depends on the interleaving)
+async fn par_once(sc: &SConf, flood: (u64, u64, u64), bystanders: &[(u64, u64)], deadline: Duration) -> Attempt {
+    let Some(reservation) = reserve_port() else { return Attempt::Trouble(2) };
+    let port = reservation.port;
+    let mut ext = Extensions::empty();
+    ext.add_prepare_single("/", kvarn::prepare!(_, _, _, _, { FatResponse::no_cache(Response::new(Bytes::from_static(b"ok"))) }));
+    let mut host = Host::unsecure(HOSTNAME, "/nonexistent/kvh-c12", ext, host::Options::default());
+    host.disable_fs_cache().disable_response_cache();
+    match sc.path {
+        0 => host.limiter = LimitManager::new(sc.host.0, sc.host.1, sc.host.2),
+        _ => apply_setters(&mut host.limiter, sc.host),
+    }
+    let pre = match sc.pre {
+        None => None,
+        Some((false, c)) => Some(LimitManager::new(c.0, c.1, c.2)),
+        Some((true, c)) => {
+            let mut m = host.limiter.clone();
+            apply_setters(&mut m, c);
+            Some(m)
+        }
+    };
+    let mut builder = HostCollection::builder().insert(host);
+    if let Some(pre) = pre {
+        builder = builder.set_pre_host_limiter(pre);
+    }
+    let mut descriptor = PortDescriptor::unsecure(port, builder.build());
+    descriptor = match sc.bind {
+        0 => descriptor.ipv4_only(),
+        2 => descriptor.ipv6_only(),
+        _ => descriptor,
+    };
+    let shutdown = RunConfig::new().bind(descriptor).disable_ctl().execute().await;
+    // the server is up when somebody gets a reaction (this probe address is nobody's)
+    let t0 = Instant::now();
+    loop {
+        match connect_from(Ipv4Addr::new(127, 0, 0, 201), port).await {
+            Ok(_) => break,
+            Err(_) if t0.elapsed() < Duration::from_secs(3) => tokio::time::sleep(Duration::from_millis(10)).await,
+            Err(_) => {
+                shutdown.shutdown();
+                return Attempt::Trouble(2);
+            }
+        }
+    }
+    let mut flooders = Vec::new();
+    for _ in 0..flood.2 {
+        flooders.push(tokio::spawn(async move {
+            for _ in 0..flood.0 {
+                if let Ok(mut s) = connect_from(Ipv4Addr::new(127, 0, 0, 1), port).await {
+                    for _ in 0..flood.1 {
+                        match exchange(&mut s, HOSTNAME, deadline).await {
+                            Answer::Status(_) => {}
+                            _ => break,
+                        }
+                    }
+                }
+            }
+        }));
+    }
+    let mut watchers = Vec::new();
+    for (i, (nconn, nreq)) in bystanders.iter().enumerate() {
+        let (nconn, nreq) = (*nconn, *nreq);
+        let local = Ipv4Addr::new(127, 0, 0, 2 + i as u8);
+        watchers.push(tokio::spawn(async move {
+            let mut results = Vec::new();
+            let mut trouble = false;
+            let mut stalled = false;
+            for _ in 0..nconn {
+                tokio::time::sleep(Duration::from_millis(3)).await;
+                let mut stream = match connect_from(local, port).await {
+                    Ok(s) => s,
+                    Err(e) if e.kind() == std::io::ErrorKind::ConnectionRefused => {
+                        results.push(X::L(vec![X::N(3)]));
+                        continue;
+                    }
+                    Err(_) => {
+                        trouble = true;
+                        break;
+                    }
+                };
+                let mut statuses = Vec::new();
+                let mut cut = false;
+                for _ in 0..nreq {
+                    match exchange(&mut stream, HOSTNAME, deadline).await {
+                        Answer::Status(s) => statuses.push(X::n(s)),
+                        Answer::Cut => {
+                            cut = true;
+                            break;
+                        }
+                        Answer::Stalled => {
+                            stalled = true;
+                            break;
+                        }
+                    }
+                }
+                if stalled {
+                    results.push(X::L(vec![X::N(4), X::L(statuses)]));
+                    break;
+                }
+                results.push(X::L(vec![X::N(0), X::L(statuses), X::bool(cut)]));
+            }
+            (results, trouble, stalled)
+        }));
+    }
+    let mut out = Vec::new();
+    let mut trouble = false;
+    let mut stalled = false;
+    for w in watchers {
+        match w.await {
+            Ok((r, t, s)) => {
+                out.push(X::L(r));
+                trouble |= t;
+                stalled |= s;
+            }
+            Err(_) => trouble = true,
+        }
+    }
+    for f in flooders {
+        let _ = f.await;
+    }
+    let alive = if trouble {
+        0
+    } else {
+        match connect_from(Ipv4Addr::new(127, 0, 0, 200), port).await {
+            Ok(mut s) => match exchange(&mut s, HOSTNAME, deadline).await {
+                Answer::Status(_) | Answer::Cut => 1u128,
+                Answer::Stalled => 4,
+            },
+            Err(_) => 0,
+        }
+    };
+    shutdown.shutdown();
+    let _ = tokio::time::timeout(Duration::from_secs(2), shutdown.wait()).await;
+    drop(reservation);
+    if trouble {
+        return Attempt::Trouble(3);
+    }
+    let x = X::L(vec![X::L(out), X::N(alive)]);
+    if stalled || alive == 4 {
+        Attempt::Stalled(x)
+    } else {
+        Attempt::Done(x)
+    }
+}
+
+pub fn server_par(x: &X) -> X {
+    let l = match x.as_l() { Some(l) if l.len() == 4 => l, _ => return X::bad() };
+    if l[0].as_bool().is_none() {
+        return X::bad();
+    }
+    let s = match l[1].as_l() { Some(s) if s.len() == 4 => s, _ => return X::bad() };
+    let path = match s[0].as_n() { Some(p) if p <= 1 => p, _ => return X::bad() };
+    let (max, ce, reset, f0) = match config(&s[1]) { Some(c) => c, None => return X::bad() };
+    let _ = f0;
+    let mut limit = max;
+    let pre = match s[2].as_l() {
+        Some([]) => None,
+        Some([X::N(k), c]) if *k <= 1 => match config(c) {
+            Some((m, e, r, _)) => {
+                limit = limit.min(m);
+                Some((*k == 1, (m, e, r)))
+            }
+            None => return X::bad(),
+        },
+        _ => return X::bad(),
+    };
+    let bind = match s[3].as_n() { Some(b) if b <= 2 => b, _ => return X::bad() };
+    let sc = SConf { path, host: (max, ce, reset), pre, bind, sensitive: false, extra: Vec::new() };
+    let flood = match l[2].as_l() {
+        Some([X::N(c), X::N(r), X::N(p)]) if *c <= 5000 && *r >= 1 && *r <= 100 && *p >= 1 && *p <= 32 => (*c as u64, *r as u64, *p as u64),
+        _ => return X::bad(),
+    };
+    let mut bystanders = Vec::new();
+    for b in match l[3].as_l() { Some(b) if b.len() <= 50 => b, _ => return X::bad() } {
+        match b.as_l() {
+            // a bystander stays within every maximum with all its calls (accept + requests)
+            Some([X::N(c), X::N(r)]) if *r >= 1 && *c <= 1000 && *r <= 1000 && (*c * (1 + *r)) as usize <= limit => bystanders.push((*c as u64, *r as u64)),
+            _ => return X::L(vec![X::N(96)]),
+        }
+    }
+    let mut last_trouble = 2;
+    let mut last_stall = None;
+    for secs in [10u64, 20, 30] {
+        match runtime().block_on(par_once(&sc, flood, &bystanders, Duration::from_secs(secs))) {
+            Attempt::Done(r) => return r,
+            Attempt::Stalled(r) => last_stall = Some(r),
+            Attempt::Trouble(t) => {
+                last_trouble = t;
+                last_stall = None;
+            }
+        }
+    }
+    last_stall.unwrap_or_else(|| X::L(vec![X::N(96), X::N(last_trouble)]))
+}
+
 pub fn dispatch(comp: &str, x: &X) -> Option<X> {
     Some(match comp {
         "limiter.register" | "limiter.concseq" => register(x),
@@ -816,6 +1015,7 @@ pub fn dispatch(comp: &str, x: &X) -> Option<X> {
         "limiter.server" => server(x, false, false),
         "limiter.server_ev" => server(x, true, false),
         "limiter.hosts" => server(x, true, true),
+        "limiter.server_par" => server_par(x),
         _ => return None,
     })
 }
